@@ -28,9 +28,15 @@ BG_PREFIXES = (
     "async_save",
     "save_finalize",
 )
+# every thread the pinned Orbax itself starts from the thread that called save()
+_KNOWN_THREADS = re.compile(
+    r"^(np_type_handler|array_type_handler|serialize_shardings|write_metadata_after_commits|async_save|save_finalize"
+    r"|asyncio_|Worker_|ScanThread|metadata_store_|ThreadPoolExecutor-|Thread-\d+ \((_target_setting_result|_do_shutdown)\))"
+)
+_pat_meta = re.compile(r"/(\d+)\.orbax-checkpoint-tmp/_CHECKPOINT_METADATA$")
 _pat_item = re.compile(r"/(\d+)\.orbax-checkpoint-tmp/default\.orbax-checkpoint-tmp$")
 _pat_step = re.compile(r"/(\d+)\.orbax-checkpoint-tmp$")
-WAIT_S = 90.0
+WAIT_S = 45.0
 
 
 class HarnessError(Exception):
@@ -62,8 +68,13 @@ class Sim:
             self.phase_of: dict[int, str] = {}
             self.entry_parked = 0
             self.bg_started = 0
+            self.live_bg = 0  # parked-or-running writer threads (Orbax commit threads + foreign ones)
+            self.in_save = False  # main is inside solver.save()
+            self.main_ident = threading.get_ident()
+            self.foreign_started = 0
             self.done: set[int] = set()
             self.started: list[int] = []  # steps whose temp dir was created (a real save began)
+            self.meta_opened: set[int] = set()  # steps whose _CHECKPOINT_METADATA was created in the temp dir
             self.passed: list[str] = []  # gate names passed, first arrival only
             self.seen: set[str] = set()
             self.on_gate = None  # callback(name) executed in the arriving thread before parking
@@ -97,6 +108,9 @@ class Sim:
             if first:
                 self.passed.append(name)
             self.cv.notify_all()
+
+    def _writer_vanished(self) -> bool:
+        return self.foreign_started > 0 and self.live_bg == 0
 
     def _is_open(self, name: str) -> bool:
         return self.open_all or name in self.open or (self.open_deletes and name.startswith("delete:"))
@@ -134,7 +148,11 @@ class Sim:
                 with self.cv:
                     self.entry_hold = False
                     self.cv.notify_all()
-                self.wait_for(lambda: it in self.parked or step in self.done, f"W1 of {step}")
+                self.wait_for(lambda: it in self.parked or step in self.done or self._writer_vanished(), f"W1 of {step}")
+                if self._writer_vanished() and it not in self.parked and step not in self.done:
+                    # a save handed to a thread of mdpax's own making ended without writing
+                    # anything (the manager skipped the step): nothing is in flight
+                    self.done.add(step)
                 cur = "W1"
             elif cur == "W1":
                 self.open_gate(it)
@@ -196,6 +214,12 @@ def _hook(ev, args):
             p = args[0]
             if isinstance(p, (str, bytes)) or hasattr(p, "__fspath__"):
                 p = str(p)
+                m = _pat_meta.search(p) if p.startswith(fs) else None
+                if m:
+                    with sim.cv:
+                        sim.meta_opened.add(int(m.group(1)))
+                        sim.cv.notify_all()
+                    return
                 if p.endswith("/config.yaml") and p.startswith(fs) and args[1] and "w" in str(args[1]):
                     return sim.gate("config_write:" + str(len([x for x in sim.seen if x.startswith("config_write")])), blocking=False)
     except SimCrash:
@@ -215,7 +239,17 @@ def install():
 
     def start(self, *a, **k):
         sim = SIM
-        if sim.active and self.name.startswith(BG_PREFIXES):
+        foreign = (
+            sim.active
+            and sim.in_save
+            and sim.block
+            and threading.get_ident() == sim.main_ident
+            and not _KNOWN_THREADS.match(self.name)
+        )
+        if sim.active and (self.name.startswith(BG_PREFIXES) or foreign):
+            # `foreign`: a thread mdpax itself starts inside save() (no such thread exists on the
+            # pinned tree) is part of the writer pipeline: it parks at its entry like Orbax's
+            # commit threads, so the plan - not the OS - decides when the save really happens
             run = self.run
             isfin = self.name.startswith("save_finalize") and hasattr(self, "step")
             stp = self.step() if isfin else None
@@ -229,14 +263,18 @@ def install():
                 try:
                     run()
                 finally:
-                    if isfin:
-                        with sim.cv:
+                    with sim.cv:
+                        sim.live_bg -= 1
+                        if isfin:
                             sim.done.add(stp)
-                            sim.cv.notify_all()
+                        sim.cv.notify_all()
 
             self.run = wrapped
             with sim.cv:
                 sim.bg_started += 1  # counted in the starting thread: no race with the new thread
+                sim.live_bg += 1
+                if foreign:
+                    sim.foreign_started += 1
         return _start(self, *a, **k)
 
     threading.Thread.start = start
